@@ -298,6 +298,47 @@ Proof.
   both3.
 Qed.
 
+(* ---------- impl/receiver.go: what arrives over the network ---------- *)
+Lemma with_self_run (f : N -> prog nret) s : run (with_self f) s = run (f (n_self (s_node s))) s.
+Proof. unfold with_self. cbn [run bind exec]. rewrite run_instr_self. cbn [run bind]. destruct (f (n_self (s_node s))); reflexivity. Qed.
+
+Theorem recv_request_is_source : forall from m s,
+  same_run (run (gen_receiveRequest (n_self (s_node s)) from m) s) (run (recv_request from m) s).
+Proof.
+  intros from m s. unfold gen_receiveRequest, recv_request.
+  cbn [run bind exec]. rewrite run_instr_self. cbn [run bind].
+  rewrite !C04Proofs.run_bind.
+  pose proof (on_request_received_is_source (from, n_self (s_node s), g_tid m) m s) as H.
+  destruct (run (gen_OnRequestReceived (n_self (s_node s)) (from, n_self (s_node s), g_tid m) m) s) as [[o r] s1].
+  destruct (run (on_request_received (from, n_self (s_node s), g_tid m) m) s) as [[o' r'] s1'].
+  destruct H as (Ho & Hr & Hs). cbn [fst snd] in Ho, Hr, Hs. subst o' s1'.
+  unfold same_class in Hr.
+  destruct r, r'; try discriminate Hr; (destruct o; both).
+Qed.
+
+Theorem recv_response_is_source : forall from m s,
+  same_run (run (gen_receiveResponse (n_self (s_node s)) from m) s) (run (recv_response from m) s).
+Proof.
+  intros from m s. unfold gen_receiveResponse, recv_response.
+  cbn [run bind exec]. rewrite run_instr_self. cbn [run bind].
+  rewrite !C04Proofs.run_bind.
+  pose proof (on_response_received_is_source (n_self (s_node s), from, g_tid m) m s) as H.
+  rewrite with_self_run in H.
+  destruct (run (gen_OnResponseReceived (n_self (s_node s)) (n_self (s_node s), from, g_tid m) m) s) as [r s1].
+  destruct (run (on_response_received (n_self (s_node s), from, g_tid m) m) s) as [r' s1'].
+  destruct H as (Hr & Hs). cbn [fst snd] in Hr, Hs. subst s1'.
+  unfold same_class in Hr.
+  destruct r, r'; try discriminate Hr; both.
+Qed.
+
+Theorem recv_restart_existing_is_source : forall from m s,
+  snd (run (gen_ReceiveRestartExistingChannelRequest (n_self (s_node s)) from m) s) = snd (run (recv_restart_existing from m) s).
+Proof.
+  intros from m s. unfold gen_ReceiveRestartExistingChannelRequest, recv_restart_existing, gen_channelDataTransferType,
+    gen_openPushRestartChannel, gen_openPullRestartChannel, open_push_restart, open_pull_restart.
+  repeat step_both; cbn; try reflexivity; try congruence.
+Qed.
+
 (* ---------- the statements the property files restate ---------- *)
 Definition runs_like (g m : prog nret) : Prop := forall s, same_run (run g s) (run m s).
 
@@ -396,4 +437,16 @@ Proof.
   - apply on_data_received_is_source.
   - apply on_data_queued_is_source.
   - apply on_data_sent_is_source.
+Qed.
+
+(* what arrives over the network: requests, responses, restart-existing-channel requests (C04, C05, C09, C10, C11) *)
+Theorem receiver_handlers_are_source : forall from m s,
+  same_run (run (gen_receiveRequest (n_self (s_node s)) from m) s) (run (recv_request from m) s) /\
+  same_run (run (gen_receiveResponse (n_self (s_node s)) from m) s) (run (recv_response from m) s) /\
+  snd (run (gen_ReceiveRestartExistingChannelRequest (n_self (s_node s)) from m) s) = snd (run (recv_restart_existing from m) s).
+Proof.
+  intros from m s. split; [|split].
+  - apply recv_request_is_source.
+  - apply recv_response_is_source.
+  - apply recv_restart_existing_is_source.
 Qed.
